@@ -23,6 +23,7 @@ package lucene
 // Injected into the root package with `go test -overlay`; never written to /repo.
 
 import (
+	"bytes"
 	"encoding/json"
 	"fmt"
 	"math/rand"
@@ -33,7 +34,9 @@ import (
 	"strconv"
 	"strings"
 	"sync"
+	"sync/atomic"
 	"testing"
+	"time"
 	"unicode"
 	"unicode/utf8"
 
@@ -69,7 +72,12 @@ func vc08WriteReport(rep *vc08Report) {
 	if rep.Samples == nil {
 		rep.Samples = []string{}
 	}
-	b, err := json.MarshalIndent(rep, "", " ")
+	var buf bytes.Buffer
+	enc := json.NewEncoder(&buf)
+	enc.SetEscapeHTML(false)
+	enc.SetIndent("", " ")
+	err := enc.Encode(rep)
+	b := buf.Bytes()
 	if err != nil {
 		b = []byte(fmt.Sprintf(`{"property":"C08","failure_count":1,"by_category":{"harness-error":1},"failures":[%q]}`, "[harness-error] cannot encode report: "+err.Error()))
 	}
@@ -87,7 +95,7 @@ func vc08NewAgg() *vc08Agg {
 	return &vc08Agg{count: map[string]int{}, best: map[string][]vc08Fail{}}
 }
 
-func (a *vc08Agg) add(cat, in, msg string, n int) {
+func (a *vc08Agg) add(cat, in string, msg func() string, n int) {
 	a.count[cat] += n
 	b := a.best[cat]
 	for _, f := range b {
@@ -95,7 +103,12 @@ func (a *vc08Agg) add(cat, in, msg string, n int) {
 			return
 		}
 	}
-	b = append(b, vc08Fail{in, msg})
+	if len(b) == 3 {
+		if w := b[2]; len(in) > len(w.in) || (len(in) == len(w.in) && in >= w.in) {
+			return // not among the three smallest: do not even build the message
+		}
+	}
+	b = append(b, vc08Fail{in, msg()})
 	sort.Slice(b, func(i, j int) bool {
 		if len(b[i].in) != len(b[j].in) {
 			return len(b[i].in) < len(b[j].in)
@@ -114,7 +127,8 @@ func (a *vc08Agg) merge(o *vc08Agg) {
 	}
 	for c, fs := range o.best {
 		for _, f := range fs {
-			a.add(c, f.in, f.msg, 0)
+			msg := f.msg
+			a.add(c, f.in, func() string { return msg }, 0)
 		}
 	}
 }
@@ -143,14 +157,11 @@ var vc08NumberRe = regexp.MustCompile(`^[+-]?(` +
 	`(?i:inf|infinity|nan)` +
 	`|0[xX][0-9a-fA-F_]*\.?[0-9a-fA-F_]*([pP][+-]?[0-9_]*)?` +
 	`|0[bBoO][0-9_]+` +
-	`|[0-9_]*\.?[0-9_]*([eE][+-]?[0-9_]*)?` +
+	`|([0-9][0-9_]*\.?[0-9_]*|\.[0-9][0-9_]*)([eE][+-]?[0-9_]*)?` +
 	`)$`)
 
 // vc08LooksNumeric: generous notion of "looks like a number" (such w are outside the escaping clause).
 func vc08LooksNumeric(w string) bool {
-	if !strings.ContainsAny(w, "0123456789") && !regexp.MustCompile(`^[+-]?(?i:inf|infinity|nan)$`).MatchString(w) {
-		return false
-	}
 	return vc08NumberRe.MatchString(w)
 }
 
@@ -274,7 +285,10 @@ func vc08Run(in string, opts []opt) (o vc08Out, pan any, site, where string) {
 	return
 }
 
-type vc08Finding struct{ cat, msg string }
+type vc08Finding struct {
+	cat string
+	msg func() string // built only when the message is going to be reported
+}
 
 var vc08EqRe = regexp.MustCompile(`(?s)^"f"\s*=\s*(.*)$`)
 
@@ -318,10 +332,16 @@ func vc08Value(e *expr.Expression, withField bool) (val *expr.Expression, like b
 
 // vc08CheckOne checks one way of writing w.  clause is "quoted" or "escaped".
 func vc08CheckOne(clause, w, in string, opts []opt, optName string, withField bool) (out []vc08Finding) {
-	desc := fmt.Sprintf("%s : w=%s written as %s with %s", strconv.Quote(in), strconv.Quote(w), clause, optName)
+	// all message texts are built lazily: on the current code a large part of the domain fails
+	desc := func() string {
+		return fmt.Sprintf("%s : w=%s written as %s with %s", strconv.Quote(in), strconv.Quote(w), clause, optName)
+	}
+	one := func(cat string, msg func() string) []vc08Finding { return []vc08Finding{{cat, msg}} }
 	o, pan, site, where := vc08Run(in, opts)
 	if pan != nil {
-		return []vc08Finding{{"panic-" + site, fmt.Sprintf("%s must give the string value w; %s panicked: %v", desc, where, pan)}}
+		return one("panic-"+site, func() string {
+			return fmt.Sprintf("%s must give the string value w; %s panicked: %v", desc(), where, pan)
+		})
 	}
 	hasWild := strings.ContainsAny(w, "*?")
 
@@ -331,11 +351,15 @@ func vc08CheckOne(clause, w, in string, opts []opt, optName string, withField bo
 		if clause == "escaped" && vc08Keyword(w) {
 			cat = "bare-keyword-is-operator"
 		}
-		return []vc08Finding{{cat, fmt.Sprintf("%s must parse to the string value w; Parse failed: %v", desc, o.perr)}}
+		return one(cat, func() string {
+			return fmt.Sprintf("%s must parse to the string value w; Parse failed: %v", desc(), o.perr)
+		})
 	}
 	val, like, problem := vc08Value(o.tree, withField)
 	if problem != "" {
-		return []vc08Finding{{clause + "-wrong-shape", fmt.Sprintf("%s must parse to f = <string w>; %s (tree %s)", desc, problem, vc08GoString(o.tree))}}
+		return one(clause+"-wrong-shape", func() string {
+			return fmt.Sprintf("%s must parse to f = <string w>; %s (tree %s)", desc(), problem, vc08GoString(o.tree))
+		})
 	}
 	if like || val.Op == expr.Wild || val.Op == expr.Regexp {
 		cat := clause + "-became-like"
@@ -347,23 +371,35 @@ func vc08CheckOne(clause, w, in string, opts []opt, optName string, withField bo
 		case val.Op == expr.Wild:
 			cat = clause + "-became-wildcard"
 		}
-		return []vc08Finding{{cat, fmt.Sprintf("%s must be the plain string value w; the tree holds a pattern: %s", desc, vc08GoString(o.tree))}}
+		return one(cat, func() string {
+			return fmt.Sprintf("%s must be the plain string value w; the tree holds a pattern: %s", desc(), vc08GoString(o.tree))
+		})
 	}
 	if val.Op != expr.Literal {
-		return []vc08Finding{{clause + "-wrong-shape", fmt.Sprintf("%s must be a literal value; the value node is %v (tree %s)", desc, val.Op, vc08GoString(o.tree))}}
+		return one(clause+"-wrong-shape", func() string {
+			return fmt.Sprintf("%s must be a literal value; the value node is %v (tree %s)", desc(), val.Op, vc08GoString(o.tree))
+		})
 	}
 	got, isStr := val.Left.(string)
 	if !isStr {
-		return []vc08Finding{{clause + "-became-" + strings.Trim(vc08SanRe.ReplaceAllString(strings.ToLower(fmt.Sprintf("%T", val.Left)), "-"), "-"), fmt.Sprintf("%s must be the STRING value w; the tree holds %#v of type %T", desc, val.Left, val.Left)}}
+		typ := strings.Trim(vc08SanRe.ReplaceAllString(strings.ToLower(fmt.Sprintf("%T", val.Left)), "-"), "-")
+		return one(clause+"-became-"+typ, func() string {
+			return fmt.Sprintf("%s must be the STRING value w; the tree holds %#v of type %T", desc(), val.Left, val.Left)
+		})
 	}
 	if got != w {
-		return []vc08Finding{{clause + "-value-" + vc08Diff(w, got), fmt.Sprintf("%s must be the string value w byte for byte; the tree holds %s", desc, strconv.Quote(got))}}
+		return one(clause+"-value-"+vc08Diff(w, got), func() string {
+			return fmt.Sprintf("%s must be the string value w byte for byte; the tree holds %s", desc(), strconv.Quote(got))
+		})
 	}
 
 	// ---- the inline SQL constant ------------------------------------------------------------
 	// (from here on the tree is right, so how w was written no longer matters: no clause in the tag)
+	add := func(cat, format string, args ...any) {
+		out = append(out, vc08Finding{cat, func() string { return desc() + fmt.Sprintf(format, args...) }})
+	}
 	if o.serr != nil {
-		out = append(out, vc08Finding{"sql-error", fmt.Sprintf("%s must render the constant w; ToPostgres failed: %v", desc, o.serr)})
+		add("sql-error", " must render the constant w; ToPostgres failed: %v", o.serr)
 	} else {
 		constant := o.sql
 		okShape := true
@@ -371,7 +407,7 @@ func vc08CheckOne(clause, w, in string, opts []opt, optName string, withField bo
 			m := vc08EqRe.FindStringSubmatch(o.sql)
 			if m == nil {
 				okShape = false
-				out = append(out, vc08Finding{"sql-not-equality", fmt.Sprintf("%s must render as \"f\" = '<w>'; ToPostgres gave %s", desc, strconv.Quote(o.sql))})
+				add("sql-not-equality", " must render as \"f\" = '<w>'; ToPostgres gave %s", strconv.Quote(o.sql))
 			} else {
 				constant = m[1]
 			}
@@ -379,22 +415,24 @@ func vc08CheckOne(clause, w, in string, opts []opt, optName string, withField bo
 		if okShape {
 			dec, ok := vc08DecodePG(constant)
 			noApos := func(x string) string { return strings.ReplaceAll(x, "'", "") }
+			const malformed = " must render as exactly one string constant that PostgreSQL decodes to w; ToPostgres gave %s, whose right side %s is not one well-formed constant"
+			const differs = ": PostgreSQL decodes the constant in %s to %s, not to w"
 			switch {
 			case !ok && strings.Contains(w, "'"):
-				out = append(out, vc08Finding{"sql-apostrophe-mishandled", fmt.Sprintf("%s must render as exactly one string constant that PostgreSQL decodes to w; ToPostgres gave %s, whose right side %s is not one well-formed constant", desc, strconv.Quote(o.sql), strconv.Quote(constant))})
+				add("sql-apostrophe-mishandled", malformed, strconv.Quote(o.sql), strconv.Quote(constant))
 			case !ok:
-				out = append(out, vc08Finding{"sql-constant-malformed", fmt.Sprintf("%s must render as exactly one string constant that PostgreSQL decodes to w; ToPostgres gave %s, whose right side %s is not one well-formed constant", desc, strconv.Quote(o.sql), strconv.Quote(constant))})
+				add("sql-constant-malformed", malformed, strconv.Quote(o.sql), strconv.Quote(constant))
 			case dec != w && noApos(dec) == noApos(w):
-				out = append(out, vc08Finding{"sql-apostrophe-mishandled", fmt.Sprintf("%s: PostgreSQL decodes the constant in %s to %s, not to w", desc, strconv.Quote(o.sql), strconv.Quote(dec))})
+				add("sql-apostrophe-mishandled", differs, strconv.Quote(o.sql), strconv.Quote(dec))
 			case dec != w:
-				out = append(out, vc08Finding{"sql-constant-" + vc08Diff(w, dec), fmt.Sprintf("%s: PostgreSQL decodes the constant in %s to %s, not to w", desc, strconv.Quote(o.sql), strconv.Quote(dec))})
+				add("sql-constant-"+vc08Diff(w, dec), differs, strconv.Quote(o.sql), strconv.Quote(dec))
 			}
 		}
 	}
 
 	// ---- the parameter list -----------------------------------------------------------------
 	if o.pperr != nil {
-		out = append(out, vc08Finding{"param-error", fmt.Sprintf("%s must travel as the parameter w; ToParameterizedPostgres failed: %v", desc, o.pperr)})
+		add("param-error", " must travel as the parameter w; ToParameterizedPostgres failed: %v", o.pperr)
 		return out
 	}
 	wantSQL := "?"
@@ -402,18 +440,18 @@ func vc08CheckOne(clause, w, in string, opts []opt, optName string, withField bo
 		wantSQL = `"f" = ?`
 	}
 	if strings.Join(strings.Fields(o.psql), " ") != wantSQL {
-		out = append(out, vc08Finding{"param-sql-shape", fmt.Sprintf("%s: the parameterized SQL must be %s, got %s (params %#v)", desc, wantSQL, strconv.Quote(o.psql), o.params)})
+		add("param-sql-shape", ": the parameterized SQL must be %s, got %s (params %#v)", wantSQL, strconv.Quote(o.psql), o.params)
 		return out
 	}
 	if len(o.params) != 1 {
-		out = append(out, vc08Finding{"param-count", fmt.Sprintf("%s: the parameter list must be [w], got %#v", desc, o.params)})
+		add("param-count", ": the parameter list must be [w], got %#v", o.params)
 		return out
 	}
 	ps, isStr := o.params[0].(string)
 	if !isStr {
-		out = append(out, vc08Finding{"param-not-string", fmt.Sprintf("%s: the parameter list must be [w] (a string), got %#v", desc, o.params)})
+		add("param-not-string", ": the parameter list must be [w] (a string), got %#v", o.params)
 	} else if ps != w {
-		out = append(out, vc08Finding{"param-" + vc08Diff(w, ps), fmt.Sprintf("%s: the parameter list must be [w], got [%s]", desc, strconv.Quote(ps))})
+		add("param-"+vc08Diff(w, ps), ": the parameter list must be [w], got [%s]", strconv.Quote(ps))
 	}
 	return out
 }
@@ -505,6 +543,11 @@ var vc08Alphabet = []string{
 	"\u00e9", "\u20ac", "\u65e5", "\U0001F600", "\u00a0",
 }
 
+var vc08AlphabetMedium = []string{
+	"a", "e", "AND", "OR", "TO", "1", ".", "-", "+", ":", "(", ")", "[", "]", "{", "~", "^", "=", "<", "!",
+	"*", "?", "/", "\\", " ", "\n", "'", "%", ",", "\u00e9",
+}
+
 var vc08AlphabetSmall = []string{
 	"a", "AND", "1", ".", "-", ":", "(", "*", "?", "/", "\\", " ", "'", "%", "\u00e9", "\n",
 }
@@ -550,6 +593,53 @@ func vc08RandomRune(rng *rand.Rand) rune {
 	}
 }
 
+// ---------------------------------------------------------------------------------------------
+// watchdog: a library call that does not come back would otherwise hang the whole test binary.
+// The stuck goroutine cannot be stopped, so the watchdog writes a report of its own, prints the
+// failure and ends the process with a non-zero status.
+
+type vc08Watch struct {
+	cur   []atomic.Pointer[string]
+	since []atomic.Int64
+	stop  chan struct{}
+}
+
+func vc08StartWatch(n int, rep *vc08Report) *vc08Watch {
+	w := &vc08Watch{cur: make([]atomic.Pointer[string], n), since: make([]atomic.Int64, n), stop: make(chan struct{})}
+	const limit = 10 * time.Second
+	go func() {
+		tk := time.NewTicker(250 * time.Millisecond)
+		defer tk.Stop()
+		for {
+			select {
+			case <-w.stop:
+				return
+			case <-tk.C:
+				now := time.Now().UnixNano()
+				for i := range w.cur {
+					p := w.cur[i].Load()
+					if p == nil || now-w.since[i].Load() < int64(limit) {
+						continue
+					}
+					msg := fmt.Sprintf("[hang] %s : the library must return on every input, a call on this one is still running after %v", strconv.Quote(*p), limit)
+					vc08WriteReport(&vc08Report{Property: rep.Property, Tier: rep.Tier, Seed: rep.Seed, Bound: "aborted by the watchdog: a library call did not return",
+						FailCount: 1, ByCategory: map[string]int{"hang": 1}, Failures: []string{msg}})
+					fmt.Printf("--- FAIL: TestVerifStandin_C08\n    C08 violated: %s\nFAIL\n", msg)
+					os.Exit(1)
+				}
+			}
+		}
+	}()
+	return w
+}
+
+func (w *vc08Watch) enter(i int, in *string) {
+	w.cur[i].Store(in)
+	w.since[i].Store(time.Now().UnixNano())
+}
+
+func (w *vc08Watch) leave(i int) { w.cur[i].Store(nil) }
+
 func TestVerifStandin_C08(t *testing.T) {
 	tier := os.Getenv("VERIF_TIER")
 	if tier != "thorough" {
@@ -570,9 +660,11 @@ func TestVerifStandin_C08(t *testing.T) {
 	rep.ByCategory = map[string]int{}
 	rep.Failures = nil
 
-	fullLen, smallLen, tinyLen, nRandom := 3, 4, 5, 40000
+	// all w of <= 3 symbols over the full alphabet, then one sub-alphabet per additional symbol
+	const fullLen = 3
+	mediumLen, smallLen, tinyLen, nRandom := 0, 4, 5, 40000
 	if tier == "thorough" {
-		fullLen, smallLen, tinyLen, nRandom = 4, 5, 6, 1000000
+		mediumLen, smallLen, tinyLen, nRandom = 4, 5, 6, 1000000
 	}
 
 	workers := runtime.NumCPU()
@@ -582,6 +674,7 @@ func TestVerifStandin_C08(t *testing.T) {
 	aggs := make([]*vc08Agg, workers)
 	stats := make([]vc08Stats, workers)
 	batches := make(chan []string, 4*workers)
+	watch := vc08StartWatch(workers, rep)
 	var wg sync.WaitGroup
 	for i := 0; i < workers; i++ {
 		aggs[i] = vc08NewAgg()
@@ -589,8 +682,11 @@ func TestVerifStandin_C08(t *testing.T) {
 		go func(i int) {
 			defer wg.Done()
 			for b := range batches {
-				for _, w := range b {
+				for k := range b {
+					w := b[k]
+					watch.enter(i, &b[k])
 					fs := vc08Check(w, &stats[i])
+					watch.leave(i)
 					if len(fs) == 0 {
 						continue
 					}
@@ -601,7 +697,8 @@ func TestVerifStandin_C08(t *testing.T) {
 							n = 0
 						}
 						seen[f.cat] = true
-						aggs[i].add(f.cat, w, "["+f.cat+"] "+f.msg, n)
+						cat, msg := f.cat, f.msg
+						aggs[i].add(cat, w, func() string { return "[" + cat + "] " + msg() }, n)
 					}
 				}
 			}
@@ -629,10 +726,14 @@ func TestVerifStandin_C08(t *testing.T) {
 
 	vc08Enumerate(vc08Alphabet, 0, fullLen, emit)
 	endDomain(fmt.Sprintf("all-w<=%d-symbols-over-%d", fullLen, len(vc08Alphabet)))
-	vc08Enumerate(vc08AlphabetSmall, fullLen+1, smallLen, emit)
-	endDomain(fmt.Sprintf("all-w-%d..%d-symbols-over-%d", fullLen+1, smallLen, len(vc08AlphabetSmall)))
-	vc08Enumerate(vc08AlphabetTiny, smallLen+1, tinyLen, emit)
-	endDomain(fmt.Sprintf("all-w-%d..%d-symbols-over-%d", smallLen+1, tinyLen, len(vc08AlphabetTiny)))
+	if mediumLen > 0 {
+		vc08Enumerate(vc08AlphabetMedium, mediumLen, mediumLen, emit)
+		endDomain(fmt.Sprintf("all-w-of-%d-symbols-over-%d", mediumLen, len(vc08AlphabetMedium)))
+	}
+	vc08Enumerate(vc08AlphabetSmall, smallLen, smallLen, emit)
+	endDomain(fmt.Sprintf("all-w-of-%d-symbols-over-%d", smallLen, len(vc08AlphabetSmall)))
+	vc08Enumerate(vc08AlphabetTiny, tinyLen, tinyLen, emit)
+	endDomain(fmt.Sprintf("all-w-of-%d-symbols-over-%d", tinyLen, len(vc08AlphabetTiny)))
 	// the double quote inside an escaped bare word (outside the quoting clause by definition)
 	withDQ := append(append([]string{}, vc08AlphabetTiny...), `"`)
 	vc08Enumerate(withDQ, 1, 4, func(w string) {
@@ -681,6 +782,7 @@ func TestVerifStandin_C08(t *testing.T) {
 	}
 	close(batches)
 	wg.Wait()
+	close(watch.stop)
 
 	total := vc08NewAgg()
 	var st vc08Stats
@@ -711,10 +813,14 @@ func TestVerifStandin_C08(t *testing.T) {
 			}
 		}
 	}
-	rep.Bound = fmt.Sprintf("texts w (valid UTF-8, no NUL): all w of <=%d symbols over a %d-symbol alphabet (letters, the keywords AND/OR/NOT/TO/and as symbols, digits, . - +, every operator character, * ?, /, backslash, space/tab/newline, apostrophe, backquote, %% _ , ;, 2/3/4-byte non-ASCII, NBSP), all w of %d..%d symbols over a %d-symbol sub-alphabet, all w of %d..%d symbols over a %d-symbol sub-alphabet, all w of <=4 symbols over 11 symbols that contain a double quote (escaping clause only), hand-picked syntax look-alikes, and %d seeded random w of 3..40 symbols (3/4 from the alphabet, 1/4 arbitrary Unicode scalar values; 1/8 with a double quote inserted). "+
+	medium := ""
+	if mediumLen > 0 {
+		medium = fmt.Sprintf("all w of %d symbols over a %d-symbol sub-alphabet, ", mediumLen, len(vc08AlphabetMedium))
+	}
+	rep.Bound = fmt.Sprintf("texts w (valid UTF-8, no NUL): all w of <=%d symbols over a %d-symbol alphabet (letters, the keywords AND/OR/NOT/TO/and as symbols, digits, . - +, every operator character, * ?, /, backslash, space/tab/newline, apostrophe, backquote, %% _ , ;, 2/3/4-byte non-ASCII, NBSP), %sall w of %d symbols over a %d-symbol sub-alphabet, all w of %d symbols over a %d-symbol sub-alphabet, all w of <=4 symbols over 11 symbols that contain a double quote (escaping clause only), hand-picked syntax look-alikes, and %d seeded random w of 3..40 symbols (3/4 from the alphabet, 1/4 arbitrary Unicode scalar values; 1/8 with a double quote inserted). "+
 		"Each w without '\"' is checked as f:\"w\", as \"w\" with default field f and as \"w\" alone (tree value == w; inline constant decoded by an independent PostgreSQL standard_conforming_strings decoder == w; parameter list == [w]); each non-empty w that does not look like a number (decimal/hex/exponent/underscore forms, inf, nan) is checked as f:<w with a backslash before every character that is not a letter, digit or '_'> and as that bare word with default field f (tree value is the plain string w, not a wildcard/regexp; SQL and parameters as above). "+
-		"evaluations = texts w (%d quoted-clause w, %d escaping-clause w, %d individual query checks x 3 library calls); distinct_nontrivial = w containing at least one character that is not a letter/digit/underscore, or that is a keyword",
-		fullLen, len(vc08Alphabet), fullLen+1, smallLen, len(vc08AlphabetSmall), smallLen+1, tinyLen, len(vc08AlphabetTiny), nRandom, st.quotedW, st.escapedW, st.checks)
+		"evaluations = texts w (%d quoted-clause w, %d escaping-clause w, %d individual query checks x 3 library calls); distinct_nontrivial = w containing at least one character that is not a letter/digit/underscore, or that is a keyword; failure counts are numbers of texts w",
+		fullLen, len(vc08Alphabet), medium, smallLen, len(vc08AlphabetSmall), tinyLen, len(vc08AlphabetTiny), nRandom, st.quotedW, st.escapedW, st.checks)
 	vc08WriteReport(rep)
 	for _, f := range rep.Failures {
 		t.Errorf("C08 violated: %s", f)
